@@ -225,7 +225,7 @@ PROPS["C11"] = {
     "engines": [
         {"bin": "hv", "args": ["c11"]},
     ],
-    "min": {"quick": {"scripts": 1500, "handshakes_ok": 1200, "server_frames_validated": 1500, "messages_delivered": 2000, "pings_answered_by_matching_pong": 300, "close_frames_received": 500, "blocking_vs_nonblocking_compared": 600, "handshakes_refused_without_key": 50, "handshake_key_lengths_swept": 257, "echo_sizes_swept": 280},
+    "min": {"quick": {"scripts": 1500, "handshakes_ok": 1200, "server_frames_validated": 1500, "messages_delivered": 2000, "pings_answered_by_matching_pong": 300, "close_frames_received": 500, "blocking_vs_nonblocking_compared": 600, "handshakes_refused_without_key": 50, "handshake_key_lengths_swept": 257, "echo_sizes_swept": 280, "mixed_mode_scripts": 80, "slow_scripts_on_timeout_app": 30},
             "thorough": {"scripts": 25_000}},
     "assumptions": [],
     "level_text": "A reference RFC 6455 client plays generated frame scripts against a real App with websocket_handler under three deliveries and both receive modes; every byte the server writes after the 101 must pass a strict frame validator and equal the expected reply sequence (Pong per Ping, echo, Close), and the handler-side log of delivered messages and errors is compared with what the script denotes.",
@@ -238,7 +238,7 @@ PROPS["C12"] = {
     "engines": [
         {"bin": "hv", "args": ["c12"]},
     ],
-    "min": {"quick": {"scenarios": 150, "handler_events_observed": 4000, "messages_dispatched_exactly_once": 2000, "broadcasts": 150, "disconnects_graceful": 400, "single_handler_thread_scenarios": 70, "unicasts_delivered": 300, "bulk_unicasts_intact": 6},
+    "min": {"quick": {"scenarios": 150, "handler_events_observed": 4000, "messages_dispatched_exactly_once": 2000, "broadcasts": 150, "disconnects_graceful": 400, "single_handler_thread_scenarios": 70, "unicasts_delivered": 300, "bulk_unicasts_intact": 6, "busy_clients_kept_and_fully_dispatched": 6},
             "thorough": {"scenarios": 1450}},
     "assumptions": [],
     "level_text": "Scenarios of several reference WebSocket clients with random scripts run against the real AsyncWebsocketApp (linked to a real App) under varied pool sizes, poll intervals, heartbeat settings and failpoint delays; the handler-side event log and the frames each client received are checked for exactly-once connect/message/disconnect, addressing of unicasts, coverage of broadcasts, per-client order (single handler thread) and termination of run.",
